@@ -290,9 +290,9 @@ class CallMixin:
         desc = rec.returns
         if isinstance(desc, dsl.SeqOf):
             et = self.elem_type(desc.elem)
-            farr = z3.Function(f"ghost:{rec.name}:{key}[]", z3.IntSort(), z3.ArraySort(z3.IntSort(), et.sort))
+            felem = z3.Function(f"ghost:{rec.name}:{key}[]", z3.IntSort(), z3.IntSort(), et.sort)
             flen = z3.Function(f"ghost:{rec.name}:{key}.len", z3.IntSort(), z3.IntSort())
-            return SeqV(farr(index), flen(index), et)
+            return SeqV(None, flen(index), et, fn=lambda j, felem=felem, index=index: felem(index, j))
         et = self.elem_type(desc)
         fn = z3.Function(f"ghost:{rec.name}:{key}", z3.IntSort(), et.sort)
         if et.kind in ("int", "bool", "real", "str"):
@@ -302,18 +302,14 @@ class CallMixin:
     def values_equal(self, a: V, b: V) -> Any:
         if isinstance(a, SeqV) or isinstance(b, SeqV):
             if isinstance(a, ListV):
-                a = self.seq_from_list(a.items, b.et) if a.items else SeqV(b.arr, z3.IntVal(0), b.et, b.off)
+                a = self.seq_from_list(a.items, b.et) if a.items else SeqV(b.arr, z3.IntVal(0), b.et, b.off, b.fn)
             if isinstance(b, ListV):
-                b = self.seq_from_list(b.items, a.et) if b.items else SeqV(a.arr, z3.IntVal(0), a.et, a.off)
-            if not (isinstance(a.off, int) and a.off == 0 and isinstance(b.off, int) and b.off == 0):
-                raise Unsupported("equality of sequence views")
-            if a.arr.sort() != b.arr.sort():
+                b = self.seq_from_list(b.items, a.et) if b.items else SeqV(a.arr, z3.IntVal(0), a.et, a.off, a.fn)
+            if a.et.sort != b.et.sort:
                 raise Unsupported("equality of sequences with different element encodings")
             # equal as lists: same length, same elements below the length
             i = z3.Int(self.ctx.fresh_name("q"))
-            return z3.And(a.n == b.n, z3.Or(a.arr == b.arr,
-                                            z3.ForAll([i], z3.Implies(z3.And(0 <= i, i < a.n),
-                                                                      z3.Select(a.arr, i) == z3.Select(b.arr, i)))))
+            return z3.And(a.n == b.n, z3.ForAll([i], z3.Implies(z3.And(0 <= i, i < a.n), a.sel(i) == b.sel(i))))
         t = self.eq(a, b)
         return t if not isinstance(t, bool) else z3.BoolVal(t)
 
